@@ -338,6 +338,7 @@ func (p *Parser) arithmMatchingErr(pos Pos, left, right token) {
 		p.matchingErr(pos, left, right)
 	case period:
 		p.checkLang(p.pos, LangZsh, `floating point arithmetic`)
+		p.curErr("not a valid arithmetic operator: %#q", p.tok)
 	default:
 		if p.quote&allArithmExpr != 0 {
 			p.curErr("not a valid arithmetic operator: %#q", p.tok)
